@@ -725,6 +725,31 @@ pub async fn run(a: &Args) -> Report {
             s.node.kill();
         }
     }
+    // a client whose `index` names none of its servers
+    for (name, index, n_servers) in [("client-index-beyond-the-server-list", 3usize, 1usize), ("client-index-with-an-empty-server-list", 0, 0)] {
+        let c = Cfg::random(&mut rng, Proto::Trojan, 0);
+        let servers: Vec<Value> = (0..n_servers).map(|_| c.client_entry("127.0.0.1", free_port())).collect();
+        let cport = free_port();
+        let conf = json!({"port": cport, "mode": "tcp", "index": index, "servers": servers});
+        let (t, dd, conf2) = (tag(), dir.clone(), conf.clone());
+        let st = tokio::task::spawn_blocking(move || start_and_observe("client", &conf2, &dd, &t, Duration::from_millis(500))).await.unwrap();
+        rep.evaluations += 1;
+        rep.mon("bad_values_tried", 1);
+        rep.distinct.insert(crate::report::hash_of(&("bad", name)));
+        if let Ok(mut s) = st {
+            let reported = s.exited.map_or(false, |c| c != 0) || s.log.contains("ERROR");
+            if has_panic(&s.log, s.exited) {
+                rep.violation(format!("C16|bad-value|{name}|panic"), format!("bad configuration value ({name}) makes the client panic instead of reporting an error"), json!({"config": conf, "log": s.log, "exit": s.exited}));
+            } else if s.tcp.contains(&cport) {
+                rep.violation(format!("C16|bad-value|{name}|accepted-and-serving"), format!("{name}: the client listens"), json!({"config": conf, "log": s.log}));
+            } else if !reported {
+                rep.violation(format!("C16|bad-value|{name}|no-error-reported"), format!("{name}: nothing listens but no error is reported either"), json!({"config": conf, "log": s.log, "exit": s.exited}));
+            } else {
+                rep.mon("bad_values_reported_as_errors", 1);
+            }
+            s.node.kill();
+        }
+    }
     // misspelt cipher names on the client: no listener that relays under some other cipher
     for (proto, cipher) in [(Proto::Vmess(3), "chacha20-poly-1305"), (Proto::Vmess(3), "aes-128-gmc"), (Proto::Vmess(3), "AES-128-GCM"), (Proto::Vmess(3), ""), (Proto::Ss(refimpl::ss::Method::Aes128Gcm), "aes-128-gmc"), (Proto::Ss(refimpl::ss::Method::Aes128Gcm), "AES-128-GCM"), (Proto::Trojan, "Unknown")] {
         let v = Cfg::random(&mut rng, proto, 1);
